@@ -123,7 +123,7 @@ def covers (rs : List Req) (t : Int) : Bool := rs.any fun r => decide (r.lo ≤ 
 
 /-- every time of `[lo, hi]` is covered by some request.  The least uncovered time of
     the interval, if there is one, is `lo` or the successor of some request's upper
-    end, so these candidates decide it (Lemmas/TsmSpec.fullyCovered_iff). -/
+    end, so these candidates decide it (Lemmas/TsmSpecCover.fullyCovered_iff). -/
 def fullyCovered (rs : List Req) (lo hi : Int) : Bool :=
   (lo :: rs.filterMap fun r => if lo ≤ r.hi + 1 ∧ r.hi + 1 ≤ hi then some (r.hi + 1) else none).all (covers rs)
 
